@@ -323,34 +323,22 @@ def sel_bbox(dset, lons, lats, tolerance=0.0, dset_lons=None, dset_lats=None):
         dset, lons=lons, lats=lats, dset_lons=dset_lons, dset_lats=dset_lats
     )
 
-    minlon = min(coords.lons) - tolerance
-    minlat = min(coords.lats) - tolerance
-    maxlon = max(coords.lons) + tolerance
-    maxlat = max(coords.lats) + tolerance
-    if not (coords._is_360(coords.dset_lons) and not coords.consistent):
-        station_ids = np.where(
-            (coords.dset_lons >= minlon)
-            & (coords.dset_lats >= minlat)
-            & (coords.dset_lons <= maxlon)
-            & (coords.dset_lats <= maxlat)
-        )[0]
+    # Box limits in the convention of the query, stations expressed in that convention
+    qlons = np.array(lons, dtype=float)
+    if qlons.min() < 0:
+        dset_lons = (np.asarray(coords.dset_lons) + 180) % 360 - 180
     else:
-        station_ids = np.where(
-            (coords.dset_lons >= maxlon)
-            & (coords.dset_lats >= minlat)
-            & (coords.dset_lons <= 360)
-            & (coords.dset_lats <= maxlat)
-        )[0]
-        station_ids = np.append(
-            station_ids,
-            np.where(
-                (coords.dset_lons >= 0)
-                & (coords.dset_lats >= minlat)
-                & (coords.dset_lons <= minlon)
-                & (coords.dset_lats <= maxlat)
-            )[0],
-        )
-
+        dset_lons = np.asarray(coords.dset_lons) % 360
+    minlon = qlons.min() - tolerance
+    minlat = min(coords.lats) - tolerance
+    maxlon = qlons.max() + tolerance
+    maxlat = max(coords.lats) + tolerance
+    station_ids = np.where(
+        (dset_lons >= minlon)
+        & (coords.dset_lats >= minlat)
+        & (dset_lons <= maxlon)
+        & (coords.dset_lats <= maxlat)
+    )[0]
     if station_ids.size == 0:
         raise ValueError(
             "No site found within bbox defined by "
